@@ -64,3 +64,21 @@ theorem is_emergency_spec (bits : Bits) (h : bits.length = 112) (htc : tcB bits 
   split <;> rfl
 
 end PyModeS.C13
+
+namespace PyModeS.C13
+
+/-- The regenerated type-code look-ups equal the DO-260B tables (NUCp by TC; NIC v1 by TC and supplement;
+    NIC v2 by TC and supplements A·2 + B/C): any edited cell breaks this theorem. -/
+theorem tc_tables_spec :
+    Tables.tcNUCp = [(0, 0), (5, 9), (6, 8), (7, 7), (8, 6), (9, 9), (10, 8), (11, 7), (12, 6), (13, 5), (14, 4), (15, 3),
+      (16, 2), (17, 1), (18, 0), (20, 9), (21, 8), (22, 0)] ∧
+    Tables.tcNICv1 = [(5, [(none, 11)]), (6, [(none, 10)]), (7, [(none, 9)]), (8, [(none, 0)]), (9, [(none, 11)]), (10, [(none, 10)]),
+      (11, [(some 0, 8), (some 1, 9)]), (12, [(none, 7)]), (13, [(none, 6)]), (14, [(none, 5)]), (15, [(none, 4)]),
+      (16, [(some 0, 2), (some 1, 3)]), (17, [(none, 1)]), (18, [(none, 0)]), (20, [(none, 11)]), (21, [(none, 10)]), (22, [(none, 0)])] ∧
+    Tables.tcNICv2 = [(5, [(none, 11)]), (6, [(none, 10)]), (7, [(some 0, 8), (some 2, 9)]),
+      (8, [(some 0, 0), (some 1, 6), (some 2, 6), (some 3, 7)]), (9, [(none, 11)]), (10, [(none, 10)]), (11, [(some 0, 8), (some 3, 9)]),
+      (12, [(none, 7)]), (13, [(none, 6)]), (14, [(none, 5)]), (15, [(none, 4)]), (16, [(some 0, 2), (some 3, 3)]), (17, [(none, 1)]),
+      (18, [(none, 0)]), (20, [(none, 11)]), (21, [(none, 10)]), (22, [(none, 0)])] := by
+  decide
+
+end PyModeS.C13
